@@ -49,7 +49,8 @@ FIELDS = {"Base": ("k", "v"), "Sub": ("k", "v"), "USub": ("k", "v", "w"), "Hand"
 # inherited keyword-only field is declared first)
 POSITIONAL = {"Base": ("k", "v"), "Sub": ("k", "v"), "USub": ("k", "v"), "Hand": ("k", "v"), "Part": ("k", "v"),
               "Rev": ("v", "k")}
-VALS = {"k": (1, 2, 7), "v": (7, 2, 1), "w": (9, 5)}
+# None among the constants of v since wave 9 (C13-agent9: "None means not supplied" dropped the constraint)
+VALS = {"k": (1, 2, 7), "v": (7, 2, 1, None), "w": (9, 5)}
 
 
 def bounds(tier):
